@@ -4,6 +4,7 @@ import (
 	"bytes"
 	"fmt"
 	"runtime"
+	"strings"
 	"sync"
 
 	cose "github.com/veraison/go-cose"
@@ -66,6 +67,30 @@ func runC18(c *Collector, r *Rng, thorough bool) {
 			func() string { return res((*cose.UntaggedSign1Message)(m).MarshalCBOR()) },
 			func() string { return res(nil, m.Verify([]byte("other"), vf)) },
 		}})
+		// --- the same message assembled by an application from its parts (never signed in place): alg given as a
+		// plain Go integer, label possibly spelled with another integer kind ---
+		{
+			hp := cose.ProtectedHeader{}
+			for kk, v := range m.Headers.Protected {
+				if n, ok := toI64(kk); ok && n == 1 {
+					a, _ := m.Headers.Protected.Algorithm()
+					hp[pick(r, []any{int64(1), int(1), int8(1)})] = pick(r, []any{int64(a), int(a), int32(a)})
+					continue
+				}
+				hp[kk] = v
+			}
+			am := &cose.Sign1Message{Headers: cose.Headers{Protected: hp, Unprotected: m.Headers.Unprotected}, Payload: m.Payload, Signature: append([]byte{}, m.Signature...)}
+			vals = append(vals, shared{"sign1-assembled/" + k.alg.String(), func() string { return oSign1(am) }, []func() string{
+				func() string { return res(nil, am.Verify(ext, vf)) },
+				func() string { return res(am.MarshalCBOR()) },
+				func() string { return res(nil, am.Verify([]byte("other"), vf)) },
+			}})
+			as := &cose.Countersignature{Headers: cose.Headers{Protected: cose.ProtectedHeader{int64(1): int64(k.alg)}}, Signature: []byte{1, 2, 3}}
+			vals = append(vals, shared{"countersignature-assembled/" + k.alg.String(), func() string { return oSigv((*cose.Signature)(as)) + oSign1(am) }, []func() string{
+				func() string { return res(nil, as.Verify(vf, am, ext)) },
+				func() string { return res(as.MarshalCBOR()) },
+			}})
+		}
 		// --- decoded Sign1 with non-canonical protected bstr head (slow path of the bstr normalisation) ---
 		if b, err := m.MarshalCBOR(); err == nil {
 			if t, err := refParseFull(b); err == nil {
@@ -244,7 +269,7 @@ func scribble(b []byte) {
 
 func runC19(c *Collector, r *Rng, thorough bool) {
 	c.Rule = "histories of 1..8 decodes (accepted and refused inputs of arbitrary messages, long payloads/signatures with 4- and 8-byte length fields included) into ONE destination variable per decoder (Sign1, untagged Sign1, COSE_Sign, Signature, Countersignature, both buckets): after each step the destination must render exactly like a fresh decode of the last accepted input (or stay unchanged after a refusal, deeply, including a copy taken earlier); afterwards every input buffer and every earlier MarshalCBOR output is overwritten with 0xff and the destination must not change; final destination and per-step verdicts compared with the Coq model; non-trivial = history contains an accepted decode followed by another decode; distinct by op term"
-	n := 60
+	n := 150
 	if thorough {
 		n = 3000
 	}
@@ -265,7 +290,18 @@ func runC19(c *Collector, r *Rng, thorough bool) {
 					sigs.Kids = append(sigs.Kids, wArr(-1, wBstr(nil, -1), wMap(-1), wBstr(nil, -1)))
 					sigs.Width = pickW(uint64(len(sigs.Kids)), -1)
 				} else {
-					mutateTree(r, &t)
+					switch r.Intn(3) {
+					case 0: // each bucket valid alone, IV and Partial IV split across them: refused by the last check of a decoder
+						if _, ok := ivSplit(r, t); !ok {
+							mutateTree(r, &t)
+						}
+					case 1: // a fault inside the protected map (crit naming an absent label, ...)
+						if _, ok := mutateInProtected(r, t); !ok {
+							mutateTree(r, &t)
+						}
+					default:
+						mutateTree(r, &t)
+					}
 				}
 			case 2:
 				t.RandWidths(r, 1, 2, isEnvelopeHead(kind, t))
@@ -290,6 +326,7 @@ func runC19(c *Collector, r *Rng, thorough bool) {
 		}
 		// ---- run the history on the implementation ----
 		dst := newDest(kind)
+		aux := newDest(kind) // a second variable: every accepted input is also decoded here and then written to by the "application"
 		var verdicts []string
 		cur := oT("zero")
 		var outputs [][]byte
@@ -317,6 +354,14 @@ func runC19(c *Collector, r *Rng, thorough bool) {
 			} else {
 				accepted++
 				verdicts = append(verdicts, oOk())
+				if strings.Contains(dst.render(), "424242") {
+					c.Fail("C19/decoded-values-share-state", fmt.Sprintf("step %d: the decoded value contains what the application wrote into a value decoded earlier", s), map[string]any{"kind": kind, "history": hexList(inputs[:s+1]), "value": trunc(dst.render(), 500)})
+					failed = true
+					break
+				}
+				if aux.decode(append([]byte{}, in...)) == nil {
+					aux.pollute()
+				}
 				fresh := newDest(kind)
 				fresh.decode(append([]byte{}, in...))
 				if dst.render() != fresh.render() {
@@ -381,6 +426,7 @@ func runC19(c *Collector, r *Rng, thorough bool) {
 			inputs = append(inputs, t.Ser())
 		}
 		dst := newDest(kind)
+		aux := newDest(kind) // a second variable: every accepted input is also decoded here and then written to by the "application"
 		var verdicts []string
 		cur := oT("zero")
 		bad := false
@@ -395,6 +441,9 @@ func runC19(c *Collector, r *Rng, thorough bool) {
 			} else {
 				verdicts = append(verdicts, oOk())
 				cur = dst.render()
+				if aux.decode(append([]byte{}, in...)) == nil {
+					aux.pollute()
+				}
 			}
 		}
 		if bad {
@@ -424,25 +473,58 @@ type dest struct {
 	render     func() string
 	encode     func() ([]byte, error)
 	copyRender func() func() string
+	pollute    func() // writes into every map and byte slice reachable from the current value
+}
+
+const polluteLabel = int64(424242)
+
+func polluteBytes(bs ...[]byte) {
+	for _, b := range bs {
+		for i := range b {
+			b[i] ^= 0x5a
+		}
+	}
+}
+
+func polluteHeaders(h *cose.Headers) {
+	if h.Protected != nil {
+		h.Protected[polluteLabel] = "written by the application"
+	}
+	if h.Unprotected != nil {
+		h.Unprotected[polluteLabel] = "written by the application"
+	}
+	polluteBytes(h.RawProtected, h.RawUnprotected)
 }
 
 func newDest(kind string) *dest {
 	switch kind {
 	case "DSign1":
 		var m cose.Sign1Message
-		return &dest{m.UnmarshalCBOR, func() string { return oSign1(&m) }, m.MarshalCBOR, func() func() string { cp := m; return func() string { return oSign1(&cp) } }}
+		return &dest{m.UnmarshalCBOR, func() string { return oSign1(&m) }, m.MarshalCBOR, func() func() string { cp := m; return func() string { return oSign1(&cp) } },
+			func() { polluteHeaders(&m.Headers); polluteBytes(m.Payload, m.Signature) }}
 	case "DSign1U":
 		var m cose.UntaggedSign1Message
 		return &dest{m.UnmarshalCBOR, func() string { return oSign1((*cose.Sign1Message)(&m)) }, m.MarshalCBOR, func() func() string {
 			cp := m
 			return func() string { return oSign1((*cose.Sign1Message)(&cp)) }
-		}}
+		}, func() { polluteHeaders(&m.Headers); polluteBytes(m.Payload, m.Signature) }}
 	case "DSignMsg":
 		var m cose.SignMessage
-		return &dest{m.UnmarshalCBOR, func() string { return oSignMsg(&m) }, m.MarshalCBOR, func() func() string { cp := m; return func() string { return oSignMsg(&cp) } }}
+		return &dest{m.UnmarshalCBOR, func() string { return oSignMsg(&m) }, m.MarshalCBOR, func() func() string { cp := m; return func() string { return oSignMsg(&cp) } },
+			func() {
+				polluteHeaders(&m.Headers)
+				polluteBytes(m.Payload)
+				for _, sg := range m.Signatures {
+					if sg != nil {
+						polluteHeaders(&sg.Headers)
+						polluteBytes(sg.Signature)
+					}
+				}
+			}}
 	case "DSignature":
 		var s cose.Signature
-		return &dest{s.UnmarshalCBOR, func() string { return oSigv(&s) }, s.MarshalCBOR, func() func() string { cp := s; return func() string { return oSigv(&cp) } }}
+		return &dest{s.UnmarshalCBOR, func() string { return oSigv(&s) }, s.MarshalCBOR, func() func() string { cp := s; return func() string { return oSigv(&cp) } },
+			func() { polluteHeaders(&s.Headers); polluteBytes(s.Signature) }}
 	case "DProt":
 		var h cose.ProtectedHeader
 		return &dest{h.UnmarshalCBOR, func() string {
@@ -453,6 +535,10 @@ func newDest(kind string) *dest {
 		}, func() ([]byte, error) { return h.MarshalCBOR() }, func() func() string {
 			cp := h
 			return func() string { return "OG (GMap " + cFlatMap(cp) + ")" }
+		}, func() {
+			if h != nil {
+				h[polluteLabel] = "written by the application"
+			}
 		}}
 	case "DUnprot":
 		var h cose.UnprotectedHeader
@@ -464,6 +550,10 @@ func newDest(kind string) *dest {
 		}, func() ([]byte, error) { return h.MarshalCBOR() }, func() func() string {
 			cp := h
 			return func() string { return "OG (GMap " + cFlatMap(cp) + ")" }
+		}, func() {
+			if h != nil {
+				h[polluteLabel] = "written by the application"
+			}
 		}}
 	}
 	panic("kind")
